@@ -195,6 +195,29 @@ TWINS = {
 }
 
 
+LIMIT_DIFF = (b"diff --git a/src/lim.rs b/src/lim.rs\nindex 1..2 100644\n--- a/src/lim.rs\n+++ b/src/lim.rs\n@@ -1,3 +1,3 @@ fn f()\n"
+              b" let keep = 1; // c      \n-let old_name = 10;        \n+let new_name = 20; // x     \n let tail = \"s\";   \n")
+
+
+def limit_part(tier, V):
+    """Lines that reach --max-syntax-highlighting-length and go on with nothing but blanks; a line of the default limit's length."""
+    long_code = b"+let v = [" + b"1, " * 128 + b"2];" + b" " * 12 + b"\n"          # ~ 400 columns of code, then blanks
+    jobs = [(24, LIMIT_DIFF), (20, LIMIT_DIFF), (18, LIMIT_DIFF), (400, LIMIT_DIFF.replace(b"+let new_name = 20; // x     \n", long_code))]
+    events = []
+    for i, (lim, d) in enumerate(jobs):
+        base = ["--no-gitconfig", "--true-color", "always", "--dark", "--width", "500", "--max-syntax-highlighting-length", str(lim)]
+        x = core.run_delta(base + ["--syntax-theme", "Monokai Extended"], d)
+        y = core.run_delta(base + ["--syntax-theme", "none"], d)
+        cx = [c for row in x.out.split(b"\n") for c in cell_rec(row) + [[10, [], [], []]]]
+        cy = [c for row in y.out.split(b"\n") for c in cell_rec(row) + [[10, [], [], []]]]
+        events.append({"run": i, "kind": "fgonly", "x": cx, "y": cy, "nosyn": [], "strict": False, "z": [], "ex": []})
+    failed, tr = tlc.validate_trace("Trace_Rel", events, heap="4g")
+    for f in failed:
+        V.violation(f"highlighting-limit:{jobs[f['run']][0]}", f"with --max-syntax-highlighting-length {jobs[f['run']][0]} the rendering under a theme "
+                    f"differs from the one without highlighting in more than foreground colours (cell {f['at']})", {"limit": jobs[f["run"]][0]})
+    return len(events)
+
+
 def twin_part(tier, V):
     jobs = [(name, view, theme) for name in TWINS for view in ("unified", "side-by-side") for theme in ("Monokai Extended", "Dracula", "GitHub")]
 
@@ -237,6 +260,7 @@ def run(tier):
     rnd = random.Random(core.seed())
     sp = stream_part(tier, V, rnd)
     sp["twin_style_triples"] = twin_part(tier, V)
+    sp["highlighting_limit_pairs"] = limit_part(tier, V)
     jobs = []
     n = 120 if tier == "quick" else 1500
     for i in range(n):
